@@ -59,7 +59,8 @@ LAYOUTS = {
     # "3bp umi followed by 8bp barcode and a single A (read as T)": the ligated base is not emitted, the
     # first two bases after the barcode are kept as ligation tag; "R2 ends with a 6bp random primer"
     'scCHIC384C8U3': L('maya_384NLA', [(0, 3, 11)], [(0, 0, 3)], [12, 6], rs=(1, 0, 6), lh=(0, 11, 13)),
-    'scCHIC384C8U3l': L('maya_384NLA', [(0, 3, 11)], [(0, 0, 3)], [12, 0], lh=(0, 11, 13)),
+    # paired-end protocol without random primer (the single-end variant is scCHIC384C8U3se): the ligation tag goes on both mates
+    'scCHIC384C8U3l': L('maya_384NLA', [(0, 3, 11)], [(0, 0, 3)], [12, 0], lh=(0, 11, 13), ends='pe'),
     'scCHIC384C8U3se': L('maya_384NLA', [(0, 3, 11)], [(0, 0, 3)], [12, 0], lh=(0, 11, 13), ends='se'),
     # mixed transcriptome + CHiC, R2 trimmed depending on content
     'TCHIC': L('maya_384NLA', [(0, 3, 11)], [(0, 0, 3)], [12, 0], lh=(0, 11, 13), ends='pe', fixed=False),
